@@ -135,6 +135,18 @@ def _r1(chk, repo):
             bb = r_
             break
     if bb is None:
+        # the initial state / the normal residual moved into private methods: inlined again, the two operator applications the rule names stay calls
+        from .common import canon_keep as _ck
+        for subst in (False, True):
+            SK = _st(_ck(repo, pc, sv, {"_apply_A", "_apply_Pinv"}, subst=subst), nested=True)
+            for last in ("$p=$s+$be*$p", "$p=$s+$ga/$gb*$p"):
+                r_, _f = _un(pats[:-1] + [last], SK)
+                if r_ is not None:
+                    bb = r_
+                    break
+            if bb is not None:
+                break
+    if bb is None:
         _, fail = _un(pats, _st(sv, nested=True))
     chk.add("C16-R1", f"{pc.qual}.solve", bb is not None, site(repo, sv), "s = P^-T A^T r, t = P^-1 p, q = A t, x += alpha t",
             f"preconditioned recurrences changed: `{pats[fail] if bb is None else ''}` has no consistent match", sv)
